@@ -207,7 +207,7 @@ CLAIMS.update({
              "Memory-model caveat as C02. A stale relaxed get_sample_count on non-multi-copy-atomic hardware cannot be exhibited by the model.",
         ref="DESIGN.md section 4 C03 and 13"),
     "C10": dict(
-        text="Theorems in coq/Props/C10.v (36 statements, closed under the global context), for all interleavings and any number of threads: the vector "
+        text="Theorems in coq/Props/C10.v (39 statements, closed under the global context), for all interleavings and any number of threads: the vector "
              "model is linearizable to a sequential map from label values to (child id, value) with linearisation step = lookup hit / "
              "insert / remove / clear / read-lock acquisition of collect (key set) / per-child load / fetch_add through the handle, each "
              "inside its call window, real-time order respected (c10_lin, c10_real_time); lock word consistent and map accessed only under "
@@ -319,14 +319,13 @@ EXTRA = {
            "search proved complete with its own fuel, read-subset derived from it) is true; float flavour: the WHOLE spec on dom11_float (finite amounts of both signs "
            "inside one 53-bit window, no overflow: c11_spec_of_validated_float), every clause except the read-subset clause elsewhere "
            "(c11_spec_of_validated_float_partial); the evidence counts the traces of each run inside / outside these domains.",
-    "C10": " c10_relaxed_spec_of_validated_partial: on every validated trace in the executable domain the relaxed spec's clauses 'every call "
-           "returned', result kinds, no duplicate keys, removed/reset keys not collected, the remove clause (Ok only for a requested key, Err never "
-           "for a certainly-present one) and no-lost-update (a completed update is decoded from a later collection of its key) hold; in full "
-           "for scenarios without decodable increments (c10_relaxed_spec_of_validated_undecodable). c10_relaxed_spec_of_validated_partial3 adds the "
-           "'shown' and 'recreated-is-fresh' conjuncts (from c10_child_id_one_key / c10_child_id_never_returns: a child id belongs to one key for "
-           "ever), i.e. EVERYTHING in the relaxed spec except the linearisation search (c10_relaxed_spec_of_validated_is_search); that the search "
-           "never answers NotFound on a validated trace is proved for scenarios without collect calls (c10_relaxed_spec_of_validated_nocollect: the FULL "
-           "relaxed spec there; the ghost log in time order is a linearisation of the spec's action system) and otherwise evaluated on every run.",
+    "C10": " c10_relaxed_spec_of_validated: for ALL traces accepted by the validator whose events belong to the harness threads, the WHOLE "
+           "executable relaxed spec is true (no bound on threads, calls or keys): every call returned, result kinds, no duplicate keys, "
+           "removed/reset keys not collected, the remove clause, no-lost-update, 'shown', 'recreated-is-fresh' (from c10_child_id_one_key / "
+           "c10_child_id_never_returns: a child id belongs to one key for ever) and the linearisation search, which cannot answer NotFound "
+           "because the ghost log in time order is a linearisation of the spec's action system (key snapshot at the collect's read-lock, "
+           "end of the value reads at the last per-child load; simulation SimR of the spec's sequential map). Proved in stages "
+           "(c10_relaxed_spec_of_validated_partial, _partial3, _nocollect; Proofs/VecConcSpec*.v).",
     "C02": " c02_spec_of_validated: for ALL traces, accepted by the validator and inside the executable domain (values +-2^k with distinct exponents "
            "< 53, sorted bounds) implies the executable spec written from the property text is true - the oracle cannot raise an alarm on a trace the "
            "model accepts (subset sums of such values decode uniquely: c02_decode_unique).",
